@@ -7,6 +7,7 @@ structure St where
   pairs : Nat := 0          -- finished recordings so far = 2 * pairs
   sameMs : Nat := 0
   fulls : Nat := 0
+  clashes : Nat := 0
 
 def init (_ : List String) : St := {}
 
@@ -22,6 +23,10 @@ def step (st : St) (bl : Block) : St × List String :=
     -- recorder deletes exactly the k oldest of its own recordings, keeps the rest and the main directory, and starts
     if bl.outs.contains ["full", "skipped"] then (st, ["full skipped"])
     else (st, [s!"full k={nat k} ret=ok oldleft=2 mainkept=true"])
+  | ["clash", _, n] =>
+    -- finished recordings already bear every name of the next milliseconds: the new recording takes another name, all
+    -- of them are kept as they are, and exactly one file is added (`TR.C10Gen`: ids are fresh; the wait loop of the F9 fix)
+    ({ st with clashes := st.clashes + 1 }, [s!"clash kept=true distinct=true stop=ok decode=ok frames={nat n} files=1"])
   | _ => (st, ["bad-op"])
 
 def monStep (st : St) (bl : Block) : St × List String :=
@@ -53,9 +58,19 @@ def monStep (st : St) (bl : Block) : St × List String :=
         else "prop=C17 reason=continuous-recorder-deleted-the-wrong-number-of-old-recordings"
       (st, [r, "prop=C10 reason=finished-recordings-deleted-or-kept-wrongly-when-the-disk-is-nearly-full"])
     | none => (st, ["prop=C17 reason=continuous-recorder-start-on-a-nearly-full-disk-did-not-complete"])
+  | ["clash", _, _] =>
+    let (st', exp) := step st bl
+    if bl.outs.map joinSp == exp then (st', []) else
+    let r := match bl.outs.find? (fun o => o.head? == some "clash") with
+      | some o =>
+        if o.contains "kept=false" || o.contains "distinct=false" then "finished-recording-overwritten-by-a-new-one-of-the-same-name"
+        else if !(o.contains "decode=ok") then "finished-file-does-not-decode"
+        else "recording-next-to-finished-files-of-the-same-time-differs"
+      | none => "recording-next-to-finished-files-of-the-same-time-not-completed"
+    (st', [s!"prop=C10 reason={r}"])
   | _ => (st, [])
 
 def monFinish (st : St) : List String :=
-  [s!"STAT stream=names pairs={st.pairs} samemillisecond={st.sameMs} nearlyfulldisk={st.fulls} nontrivial={if st.sameMs ≥ 1 then 1 else 0}"]
+  [s!"STAT stream=names pairs={st.pairs} samemillisecond={st.sameMs} nearlyfulldisk={st.fulls} nameclashes={st.clashes} nontrivial={if st.sameMs ≥ 1 then 1 else 0}"]
 
 end Driver.NamesStream
